@@ -488,7 +488,7 @@ def render_def(prog, i, skip_names=()):
     L.append("    r = %s" % first)
     if nd.get("guard"):
         g = nd["guard"]
-        L += ["    ga_, gb_ = abs, boom", "    try:", "        gp_ = ga_(x)"] + (["        gq_ = gb_(x)"] if g["inside"] else []) + [
+        L += ["    ga_, gb_ = int, boom", "    try:", "        gp_ = ga_(x)"] + (["        gq_ = gb_(x)"] if g["inside"] else []) + [
             "    except ValueError:", "        return -%d" % g["k"]] + ([] if g["inside"] else ["    gq_ = gb_(x)"]) + ["    r += gp_ + gq_"]
     if nd["tconst"]:
         L.append("    tc_ = %r" % (tuple(nd["tconst"]),))
